@@ -12,6 +12,7 @@ import AttrsModel.Proofs.C14Final
 import AttrsModel.Proofs.C14Inherit
 import AttrsModel.Proofs.SrcFuncs
 import AttrsModel.Proofs.SrcWrap
+import AttrsModel.Proofs.SrcDefine
 
 namespace Attrs.C14
 
@@ -619,5 +620,32 @@ theorem C14_source_wrap_state : ∀ (gss gsv sl ig og os ad osa fz fb ch : Bool)
     Src.srcWrap (Src.sliceState gss gsv sl ig og os ad osa fz fb ch) =
       Src.wrapModel (Src.sliceState gss gsv sl ig og os ad osa fz fb ch) :=
   Src.wrap_slice_state
+
+/-- **C14_source_define_retry_same_arguments**: when `auto_attribs` is not given, the translated body of
+    `define(...).wrap` tries `attrs(...)` with `auto_attribs=True` and, on `UnannotatedAttributeError`, again with
+    `auto_attribs=False` — and the two calls agree in every other argument (so the method-generation decisions of the
+    retry are those of the first attempt); with `auto_attribs` given there is exactly one call. -/
+theorem C14_source_define_retry_same_arguments (env : Py.Env) (ext : Py.Ext) (cls : Py.PV) (o : Src.OnSet) (frozen : Bool) (aa : Option Bool)
+    (bases : List Py.Atom) (fb : Py.Atom → Bool)
+    (h1 : env "on_setattr" = o.pv) (h2 : env "setters.NO_OP" = Src.oNoOp) (h3 : env "_DEFAULT_ON_SETATTR" = Src.oDefault)
+    (h4 : env "_frozen_setattrs" = Src.oFrozenSetattrs) (h5 : env "frozen" = Py.vBool frozen)
+    (h6 : env "auto_attribs" = (match aa with | none => Py.vNone | some b => Py.vBool b))
+    (hb : ext "getattr" [cls, Py.vStr "__bases__"] = .tup bases)
+    (hs : ∀ b, Py.pyIs (ext "getattr" [.a b, Py.vStr "__setattr__"]) Src.oFrozenSetattrs = Py.vBool (fb b))
+    (r : Py.PV) (es : List Py.Eff) (h : Gen.define_wrap env ext cls [] = .ok (r, es)) :
+    ∃ s, es = Src.defineCalls cls (match aa with | none => Py.vNone | some b => Py.vBool b) s ∧
+      (aa = none → es = [Py.Eff.mk "try:do_it" [cls, Py.vTrue, s],
+                          Py.Eff.mk "except UnannotatedAttributeError:do_it" [cls, Py.vFalse, s]]) := by
+  rw [Src.define_wrap_spec env ext cls o frozen aa bases fb h1 h2 h3 h4 h5 h6 hb hs] at h
+  rcases aa with _ | b <;>
+  · cases hd : Src.defineOnSetattr o frozen (bases.any fb) with
+    | error e =>
+      rw [hd] at h
+      cases h
+    | ok s =>
+      rw [hd] at h
+      injection h with h'
+      injection h' with _ h2
+      exact ⟨s, h2.symm, fun haa => by first | (rw [← h2]; rfl) | cases haa⟩
 
 end Attrs.C14
